@@ -37,7 +37,7 @@ RULE = (
 CLASSES = [
     "clone_new_job", "merge_existing_job", "nested_dir_recursive", "nested_dir_nonrecursive", "doc_nested_merge",
     "project_doc_merge", "selection_subset", "exclude_hit", "strategy_update_mtime", "doc_copy_mode",
-    "job_level_entry", "schema_gate", "bulk_jobs", "bulk_gt_500", "bulk_dry_run", "stale_backup_leftover", "name_prefixed_by_internal_file", "job_level_new_job", "noop_uninitialised_source",
+    "job_level_entry", "schema_gate", "bulk_jobs", "bulk_gt_500", "bulk_dry_run", "stale_backup_leftover", "empty_subdirectories", "name_prefixed_by_internal_file", "job_level_new_job", "noop_uninitialised_source",
 ]
 ASSUMPTIONS = [
     "an exclude pattern excludes an entry iff it re.match-es the entry name at its level; only the two exact internal file names are excluded besides",
@@ -118,9 +118,61 @@ def _run_bulk(case, ctx):
         shutil.rmtree(base, ignore_errors=True)
 
 
+def _run_empty_dirs(case, ctx):
+    """Sub-directories are part of what is synchronised 'when recursive or when the job was newly cloned' -- also the
+    ones that hold no file (checkpoints/, out/frames/)."""
+    import os
+
+    import signac
+    from signac import sync
+
+    base = ctx.tmpdir("c13ed")
+    mms = []
+    try:
+        src = signac.init_project(os.path.join(base, "src"))
+        dst = signac.init_project(os.path.join(base, "dst"))
+        spt = {"a": 0}
+        js = src.open_job(spt).init()
+        fsutil.write_file(js.fn("f.txt"), b"data")
+        dirs = ["checkpoints", os.path.join("out", "frames"), os.path.join("sub", "deep", "empty")]
+        for d in dirs:
+            os.makedirs(js.fn(d))
+        fsutil.write_file(js.fn(os.path.join("sub", "h.txt")), b"h")
+        how = case.get("how", "clone")
+        if how != "clone":
+            jd = dst.open_job(spt).init()
+            fsutil.write_file(jd.fn("only_dst.txt"), b"keep")
+        pre_src = sp.snap(src.path)
+        s2, d2 = signac.Project(src.path), signac.Project(dst.path)
+        try:
+            if how == "job":
+                d2.open_job(spt).sync(s2.open_job(spt), recursive=True)
+            elif case.get("entry") == "sync_projects":
+                sync.sync_projects(s2, d2, recursive=True)
+            else:
+                d2.sync(s2, recursive=True)
+        except Exception as e:
+            mms.append(Mismatch("unexpected_exception", f"sync ({how}) of a job with empty sub-directories raised {type(e).__name__}: {e}"))
+            return {"mismatches": mms, "classes": ["empty_subdirectories"], "nontrivial": True}
+        jd = signac.Project(dst.path).open_job(spt)
+        missing = [d for d in dirs if not os.path.isdir(jd.fn(d))]
+        if missing:
+            mms.append(Mismatch("p2_missing_nested", f"{how} sync (recursive): source sub-directories {missing} (they hold no file) are absent in the destination after the sync returned"))
+        if not os.path.isfile(jd.fn(os.path.join("sub", "h.txt"))) or (how != "clone" and not os.path.isfile(jd.fn("only_dst.txt"))):
+            mms.append(Mismatch("p2_missing_nested", f"{how} sync (recursive): sub/h.txt missing or destination-only file lost"))
+        d = fsutil.diff(pre_src, sp.snap(src.path))
+        if d["added"] or d["removed"] or d["changed"]:
+            mms.append(Mismatch("p4_src_changed", f"source project changed by the sync: {_fmt(d)}"))
+        return {"mismatches": mms, "classes": ["empty_subdirectories"], "nontrivial": True}
+    finally:
+        shutil.rmtree(base, ignore_errors=True)
+
+
 def run_case(case, ctx):
     if "bulk" in case:
         return _run_bulk(case, ctx)
+    if case.get("kind") == "empty_dirs":
+        return _run_empty_dirs(case, ctx)
     if case.get("kind") == "stale_backup":
         # a '<document>~' backup left by a killed earlier sync sits in the destination: the sync may refuse
         # (signac raises RuntimeError and changes nothing); if it returns, P3 holds for the document
@@ -431,6 +483,10 @@ def run(ctx):
         "kind": st.just("stale_backup"), "level": st.sampled_from(["job", "project"]), "src_doc": docs, "dst_doc": docs, "stale": docs,
         "doc_sync": st.sampled_from(["bykey_none", "bykey_none", "update"]),
     }), 40 if ctx.tier == "quick" else 400, ctx.apply)
+    for i, c in enumerate([{"kind": "empty_dirs", "how": "clone"}, {"kind": "empty_dirs", "how": "clone", "entry": "sync_projects"},
+                           {"kind": "empty_dirs", "how": "existing"}, {"kind": "empty_dirs", "how": "job"}]):
+        if i % ctx.nworkers == ctx.worker:
+            ctx.apply(c)
     for i, c in enumerate(BULK if ctx.tier != "quick" else BULK[:4]):
         if i % ctx.nworkers == ctx.worker:
             ctx.apply(c)
